@@ -1466,7 +1466,7 @@ class VmErrorLog(ErrorLog):
 
   @_error_name("incomplete-match")
   def incomplete_match(self, stack, line, cases, details=None):
-    cases = ", ".join(str(x) for x in cases)
+    cases = ", ".join(sorted(str(x) for x in cases))
     msg = f"The match is missing the following cases: {cases}"
     self.error(stack, msg, details=details, line=line)
 
